@@ -58,19 +58,19 @@ Definition readcap16_data (t : target) : bytes :=
 
 Definition truncate (alloc : N) (d : bytes) : bytes := firstn (N.to_nat alloc) d.
 
-Definition is (cdb : bytes) (opc : N) (len : nat) : bool :=
-  match cdb with o :: _ => (o =? opc) && Nat.eqb (length cdb) len | [] => false end.
+(* dispatch on the OPERATION CODE (byte 0) and the CDB length SAM-5 assigns to its group *)
+Definition is (opc : N) (len : nat) (code : N) (n : nat) : bool := (opc =? code) && Nat.eqb len n.
 
-Definition t_exec (t : target) (cdb dataout : bytes) : target * tresp :=
+Definition t_dispatch (t : target) (opc : N) (len : nat) (cdb dataout : bytes) : target * tresp :=
   if 1 <=? t_nblk t then
-    if is cdb 0x28 10 then t_read t (rd cdb 2 7 32) (rd cdb 7 7 16)
-    else if is cdb 0xA8 12 then t_read t (rd cdb 2 7 32) (rd cdb 6 7 32)
-    else if is cdb 0x88 16 then t_read t (rd cdb 2 7 64) (rd cdb 10 7 32)
-    else if is cdb 0x2A 10 then t_write t (rd cdb 2 7 32) (rd cdb 7 7 16) dataout
-    else if is cdb 0xAA 12 then t_write t (rd cdb 2 7 32) (rd cdb 6 7 32) dataout
-    else if is cdb 0x8A 16 then t_write t (rd cdb 2 7 64) (rd cdb 10 7 32) dataout
-    else if is cdb 0x41 10 then t_write_same t (rd cdb 2 7 32) (rd cdb 7 7 16) dataout
-    else if is cdb 0x93 16 then
+    if is opc len 0x28 10 then t_read t (rd cdb 2 7 32) (rd cdb 7 7 16)
+    else if is opc len 0xA8 12 then t_read t (rd cdb 2 7 32) (rd cdb 6 7 32)
+    else if is opc len 0x88 16 then t_read t (rd cdb 2 7 64) (rd cdb 10 7 32)
+    else if is opc len 0x2A 10 then t_write t (rd cdb 2 7 32) (rd cdb 7 7 16) dataout
+    else if is opc len 0xAA 12 then t_write t (rd cdb 2 7 32) (rd cdb 6 7 32) dataout
+    else if is opc len 0x8A 16 then t_write t (rd cdb 2 7 64) (rd cdb 10 7 32) dataout
+    else if is opc len 0x41 10 then t_write_same t (rd cdb 2 7 32) (rd cdb 7 7 16) dataout
+    else if is opc len 0x93 16 then
       (* NDOB (byte 1 bit 0): no data-out buffer, the blocks are written with zeros *)
       if rd cdb 1 0 1 =? 1
       then match dataout with
@@ -78,15 +78,18 @@ Definition t_exec (t : target) (cdb dataout : bytes) : target * tresp :=
            | _ => (t, TCheck)
            end
       else t_write_same t (rd cdb 2 7 64) (rd cdb 10 7 32) dataout
-    else if is cdb 0x35 10 then t_sync t (rd cdb 2 7 32) (rd cdb 7 7 16)
-    else if is cdb 0x91 16 then t_sync t (rd cdb 2 7 64) (rd cdb 10 7 32)
-    else if is cdb 0x25 10 then (t, TGood (readcap10_data t))
-    else if is cdb 0x9E 16 then
+    else if is opc len 0x35 10 then t_sync t (rd cdb 2 7 32) (rd cdb 7 7 16)
+    else if is opc len 0x91 16 then t_sync t (rd cdb 2 7 64) (rd cdb 10 7 32)
+    else if is opc len 0x25 10 then (t, TGood (readcap10_data t))
+    else if is opc len 0x9E 16 then
       if rd cdb 1 4 5 =? 0x10 then (t, TGood (truncate (rd cdb 10 7 32) (readcap16_data t))) else (t, TCheck)
-    else if is cdb 0x12 6 then
+    else if is opc len 0x12 6 then
       if rd cdb 1 0 1 =? 0 then (t, TGood (truncate (rd cdb 3 7 16) (t_ident t))) else (t, TCheck)
     else (t, TCheck)
   else (t, TCheck).
+
+Definition t_exec (t : target) (cdb dataout : bytes) : target * tresp :=
+  t_dispatch t (rd cdb 0 7 8) (length cdb) cdb dataout.
 
 (* ---------- the abstract medium: what each logical block holds after a history of writes ---------- *)
 
